@@ -18,6 +18,8 @@ RES = Tup(INT, PVal)
 
 
 def declare(reg):
+    from pyvc import core as _core
+    _core.STR_LIKE_SORTS.add("Chr")          # a character IS a one-character string: `p == "\\"` is a real comparison
     reg.sort(Ref_P=P, ChrT=Chr)
     reg.cls("P", pyclasses=["Parser", "AnyChar", "Char", "InSet", "Sequence", "Choice", "Many", "FollowedBy", "NotFollowedBy", "KeepLeft",
                             "KeepRight", "Opt", "Wrapper", "Forward", "EOF", "Literal", "Until", "Map"],
